@@ -4,15 +4,13 @@ The step-level halves that ARE proved are in `AfkakProps/C01.lean`. -/
 namespace Afkak.Props.C01
 open Afkak.Producer Afkak.Monitor.ProducerTrace Afkak.Monitor.C01
 
-/-- trace level: on every model trace, every `ok r` is fired in the step in which the client answered
-    the LAST produce request observed, `r` is in that answer with error 0, and that request's payload
-    for `r`'s topic/partition contains the send (what the monitor checks on implementation traces) -/
-def C01_success_only_if_acked : Prop := ∀ cfg evs, successAcked cfg (traceOf cfg evs) = true
-
 /-- when no batch is in flight every dispatched send has fired, given C07's accounting -/
 def C01_fires_exactly_once : Prop := ∀ cfg evs, resolvedFired cfg (traceOf cfg evs) = true
 
 /-- every payload is made of whole, known, distinct sends of its topic -/
 def C01_payload_integrity : Prop := ∀ cfg evs, payloads cfg (traceOf cfg evs) = true
+
+/-- with acks = 0 no send fails with NoResponseError -/
+def C01_acks0_succeeds : Prop := ∀ cfg evs, acks0 cfg (traceOf cfg evs) = true
 
 end Afkak.Props.C01
